@@ -18,7 +18,6 @@ def configs(tier):
         cs += [
             dict(N=3, forks=2, buffer_size=2, may_fail=True),
             dict(N=4, forks=2, buffer_size=2, may_fail=False, lookahead=True),
-            dict(N=5, forks=2, buffer_size=2, may_fail=False, lookahead=True),
             dict(N=2, forks=3, buffer_size=2, may_fail=True),
             dict(N=3, forks=3, buffer_size=2, may_fail=False),
         ]
